@@ -27,7 +27,8 @@ func (d *Driver) sample() {
 	j18 := p.judges("C18")
 	j09 := p.judges("C09")
 	j05 := p.judges("C05")
-	if !j18 && !j09 && !j05 {
+	j08 := p.judges("C08")
+	if !j18 && !j09 && !j05 && !j08 {
 		return
 	}
 	// owner tracking per group (for follower convergence)
@@ -55,6 +56,13 @@ func (d *Driver) sample() {
 			if j09 && cur && in.stopOK && in.stopRetStep > 0 && !in.running && in.inStopCall == 0 && in.apiBusy == 0 {
 				if isL {
 					d.h.violate("C09", "leader-after-stop-returned", fmt.Sprintf("i%d.%d reports IsLeader()==true after its stop call returned at %v", in.idx, o.gen, in.stopRetAt), now, d.step)
+				}
+			}
+			if j08 && d.nParked == 0 && in.inStopCall == 0 && in.apiBusy == 0 && !in.cfg.NoCallbacks && !o.failedStop {
+				// nothing of the library is between a flag change and its callback: the claim
+				// equals "promotions outnumber demotions by one"
+				if isL != (o.promotes-o.demotes == 1) {
+					d.h.violate("C08", fmt.Sprintf("claim-differs-from-callback-balance/leader=%v", isL), fmt.Sprintf("i%d.%d IsLeader()=%v with %d promotions and %d demotions", in.idx, o.gen, isL, o.promotes, o.demotes), now, d.step)
 				}
 			}
 			if !j18 && !j05 {
@@ -100,6 +108,10 @@ func (d *Driver) sample() {
 						}
 						if d.lastFaultEnd > t0 {
 							t0 = d.lastFaultEnd
+						}
+						// a follower that has just stepped down learns the new owner like any other
+						if in.fellAt > t0 {
+							t0 = in.fellAt
 						}
 						// The statement gives no number for "converges"; the check allows both ways a
 						// follower can learn the owner to complete: a periodic check (500 ms + one Get)
@@ -191,14 +203,13 @@ func (d *Driver) judgeC05() {
 			continue
 		}
 		ts := byObj[[2]int{c.Inst, c.Gen}]
-		// the term whose rising edge is the latest at or before the callback
+		// the n-th OnPromote of an object belongs to its n-th term (the callback may be entered
+		// after the term has ended: the library starts it from a goroutine of its own)
 		var t *Term
-		for _, x := range ts {
-			if x.SStart <= c.Step {
-				t = x
-			}
+		if c.Term >= 1 && c.Term <= len(ts) {
+			t = ts[c.Term-1]
 		}
-		if t == nil {
+		if t == nil || t.SStart > c.Step {
 			continue
 		}
 		if t.Rise.Live != nil && t.Rise.Live.Writer == t.Inst && t.Rise.Live.Gen == t.Gen && t.Rise.Live.P.OK {
@@ -309,74 +320,72 @@ func (d *Driver) judgeC08() {
 		// by kind priority inside one step: rise < promote, fall < demote (callbacks follow their edge)
 		sort.SliceStable(items, func(i, j int) bool { return items[i].step < items[j].step })
 		d.judgedInc("C08")
-		// state machine
-		leading := false        // claim flag
-		pendingPromote := 0     // rises not yet matched by a promote
-		pendingDemote := 0      // falls not yet matched by a demote
-		var lastFall *ClaimEvt
-		var termToken string
-		for idx, it := range items {
+		// Two sequences are matched: claim edges (rise_i, fall_i: term i) and callback entries
+		// (P_i, D_i). The library starts the callbacks from goroutines of its own, so a callback
+		// may be entered any time after its edge; what the statement fixes is their order:
+		// P_1 D_1 P_2 D_2 ..., P_i after rise_i with term i's token, D_i after fall_i, nothing extra,
+		// nothing missing at the end. (That the claim equals "promotions outnumber demotions by
+		// one" whenever nothing of the instance is in motion is checked at the quiescent points,
+		// see sample().)
+		var rises, falls []*ClaimEvt
+		nP, nD := 0, 0
+		leading := false
+		for _, it := range items {
 			switch it.kind {
 			case "rise":
-				if pendingDemote > 0 && !d.stopFailed(lastFall, o) {
-					d.h.violate("C08", "missing-ondemote/fall-by:"+lastFall.Stack, fmt.Sprintf("i%d.%d stopped being leader at %v (%s) and OnDemote had not run when it became leader again at %v", k[0], k[1], lastFall.T, lastFall.Stack, it.c.T), lastFall.T, lastFall.Step)
-				}
-				pendingDemote = 0
+				rises = append(rises, it.c)
 				leading = true
-				pendingPromote++
-				termToken = it.c.Token
-			case "promote":
-				if pendingPromote <= 0 {
-					d.h.violate("C08", "extra-onpromote", fmt.Sprintf("i%d.%d OnPromote at %v without a new term", k[0], k[1], it.cb.T), it.cb.T, it.cb.Step)
-				} else {
-					pendingPromote--
-					if it.cb.Token != termToken {
-						d.h.violate("C08", "onpromote-wrong-token", fmt.Sprintf("i%d.%d OnPromote(%s) for term token %s", k[0], k[1], short(it.cb.Token), short(termToken)), it.cb.T, it.cb.Step)
-					}
-				}
 			case "fall":
-				if pendingPromote > 0 {
-					// promotion callback goroutine had not run yet: look ahead in the same step
-					found := false
-					for _, nx := range items[idx+1:] {
-						if nx.step != it.step {
-							break
-						}
-						if nx.kind == "promote" {
-							found = true
-						}
-					}
-					if !found {
-						d.h.violate("C08", "missing-onpromote", fmt.Sprintf("i%d.%d term ended at %v before OnPromote ran", k[0], k[1], it.c.T), it.c.T, it.c.Step)
-						pendingPromote = 0
-					}
-				}
+				falls = append(falls, it.c)
 				leading = false
-				pendingDemote++
-				lastFall = it.c
+			case "promote":
+				if nP >= len(rises) {
+					d.h.violate("C08", "extra-onpromote", fmt.Sprintf("i%d.%d OnPromote at %v without a new term", k[0], k[1], it.cb.T), it.cb.T, it.cb.Step)
+					continue
+				}
+				nP++
+				if tok := rises[nP-1].Token; it.cb.Token != tok {
+					d.h.violate("C08", "onpromote-wrong-token", fmt.Sprintf("i%d.%d OnPromote(%s) for term token %s", k[0], k[1], short(it.cb.Token), short(tok)), it.cb.T, it.cb.Step)
+				}
+				if nD < nP-1 {
+					// OnPromote of term i+1 entered before OnDemote of term i
+					lf := falls[nD]
+					if !d.stopFailed(lf, o) {
+						d.h.violate("C08", "missing-ondemote/fall-by:"+lf.Stack, fmt.Sprintf("i%d.%d stopped being leader at %v (%s) and OnDemote had not run when OnPromote of its next term ran at %v", k[0], k[1], lf.T, lf.Stack, it.cb.T), lf.T, lf.Step)
+					}
+					nD = nP - 1
+				}
 			case "demote":
-				if pendingDemote <= 0 {
+				if nD >= len(falls) {
 					why := "not-leader-before"
 					if leading {
 						why = "while-still-leader"
 					}
 					d.h.violate("C08", "extra-ondemote/"+why+"/by:"+it.cb.Token, fmt.Sprintf("i%d.%d OnDemote at %v (called from %s) without a matching loss of leadership", k[0], k[1], it.cb.T, it.cb.Token), it.cb.T, it.cb.Step)
-				} else {
-					pendingDemote--
-					// promptness: outside stop calls the callback must run by the next quiescent point
-					// (same virtual instant: a goroutine preempted between clearing the claim and calling
-					// the callback is not at a quiescent point yet; positive stalls are allowed for)
-					if !stopStack(lastFall.Stack) && it.cb.T > lastFall.T+d.stallIn(k[0], lastFall.T, it.cb.T) {
-						d.h.violate("C08", "late-ondemote/fall-by:"+lastFall.Stack, fmt.Sprintf("i%d.%d lost leadership at step %d (%v) but OnDemote ran at step %d (%v)", k[0], k[1], lastFall.Step, lastFall.T, it.cb.Step, it.cb.T), it.cb.T, it.cb.Step)
-					}
+					continue
+				}
+				nD++
+				lf := falls[nD-1]
+				if nP < nD {
+					d.h.violate("C08", "ondemote-before-onpromote/by:"+it.cb.Token, fmt.Sprintf("i%d.%d OnDemote of term %d at %v before the term's OnPromote", k[0], k[1], nD, it.cb.T), it.cb.T, it.cb.Step)
+					nP = nD
+				}
+				// promptness: outside stop calls the callback must run by the next quiescent point
+				// (same virtual instant: a goroutine preempted between clearing the claim and calling
+				// the callback is not at a quiescent point yet; positive stalls are allowed for)
+				if !stopStack(lf.Stack) && it.cb.T > lf.T+d.stallIn(k[0], lf.T, it.cb.T) {
+					d.h.violate("C08", "late-ondemote/fall-by:"+lf.Stack, fmt.Sprintf("i%d.%d lost leadership at step %d (%v) but OnDemote ran at step %d (%v)", k[0], k[1], lf.Step, lf.T, it.cb.Step, it.cb.T), it.cb.T, it.cb.Step)
 				}
 			}
 		}
-		if pendingDemote > 0 && lastFall != nil && lastFall.Step < d.endStep && !d.stopFailed(lastFall, o) {
-			d.h.violate("C08", "missing-ondemote/fall-by:"+lastFall.Stack, fmt.Sprintf("i%d.%d stopped being leader at %v (%s) and OnDemote never ran", k[0], k[1], lastFall.T, lastFall.Stack), lastFall.T, lastFall.Step)
+		for i := nD; i < len(falls); i++ {
+			if lf := falls[i]; lf.Step < d.endStep && !d.stopFailed(lf, o) {
+				d.h.violate("C08", "missing-ondemote/fall-by:"+lf.Stack, fmt.Sprintf("i%d.%d stopped being leader at %v (%s) and OnDemote never ran", k[0], k[1], lf.T, lf.Stack), lf.T, lf.Step)
+				break
+			}
 		}
-		if pendingPromote > 0 && leading {
-			d.h.violate("C08", "missing-onpromote", fmt.Sprintf("i%d.%d leads but OnPromote never ran for the term", k[0], k[1]), d.lastNow, d.step)
+		if nP < len(rises) && rises[nP].Step < d.endStep {
+			d.h.violate("C08", "missing-onpromote", fmt.Sprintf("i%d.%d became leader at %v but OnPromote never ran for the term", k[0], k[1], rises[nP].T), rises[nP].T, rises[nP].Step)
 		}
 	}
 }
@@ -456,14 +465,14 @@ func (d *Driver) judgeC19() {
 		if o == nil || o.dead {
 			continue
 		}
-		// the term this callback belongs to: latest rising edge at or before the callback
+		// the term this callback belongs to: the n-th OnPromote of an object belongs to its n-th
+		// term (C08 checks that pairing and the tokens); the library starts the callback from a
+		// goroutine of its own, possibly after the term has already ended
 		var t *Term
-		for _, tt := range byObj[[2]int{k[0], k[1]}] {
-			if tt.SStart <= x.enter.Step {
-				t = tt
-			}
+		if ts := byObj[[2]int{k[0], k[1]}]; k[2] >= 1 && k[2] <= len(ts) {
+			t = ts[k[2]-1]
 		}
-		if t == nil {
+		if t == nil || t.SStart > x.enter.Step {
 			continue
 		}
 		d.judgedInc("C19")
@@ -473,7 +482,7 @@ func (d *Driver) judgeC19() {
 		}
 		if t.Fall != nil && t.SEnd < d.endStep && !exitedBefore(t.SEnd) {
 			// callback still running at the end of the term: the context must be done by the next quiescent point
-			if x.done == nil || x.done.T > t.End {
+			if x.done == nil || (x.done.T > t.End && x.done.T > x.enter.T) {
 				when := "never"
 				if x.done != nil {
 					when = fmt.Sprintf("only at %v", x.done.T)
@@ -703,8 +712,23 @@ func (d *Driver) judgeC09() {
 					}
 				}
 			}
+			// a demotion by another cause that lands while the stop call is starting (same instant,
+			// or while the caller is stalled before the call's first lock): whether the call still
+			// finds a leader is decided by the scheduler, not by the library
+			demotedMeanwhile := false
+			for _, c := range d.h.Claims {
+				if c.Edge && !c.Val && c.Inst == a.Inst && c.Gen == a.Gen && c.Step >= a.SInv && c.Step <= a.SRet && !stopStack(c.Stack) {
+					demotedMeanwhile = true
+				}
+			}
 			if faulted {
 				d.skip("C09", "deletekey-delete-faulted")
+			} else if demotedMeanwhile && !issued {
+				d.skip("C09", "deletekey-demoted-by-other-cause-during-call")
+			} else if !issued && a.TRet >= a.TInv+to-time.Millisecond {
+				// the call's own deadline had passed before it reached the deletion (the stopping
+				// goroutine itself was stalled): same reasoning as for a slow store
+				d.skip("C09", "deletekey-deadline-exhausted-by-stalls")
 			} else if a.OwnerAtInv {
 				if !issued {
 					d.h.violate("C09", "deletekey-no-delete-issued", fmt.Sprintf("i%d StopWithContext(DeleteKey) by the record's owner returned at %v without issuing a delete", a.Inst, a.TRet), a.TRet, a.SRet)
